@@ -39,7 +39,7 @@ plain, not inverted if whose root is not Jump and has exactly two out-edges, of 
 flagged else and the higher one not -/
 def bridgeVertexOk (g : BGraph) (v : Nat) : Bool :=
   match g.vs[v]? with
-  | some ⟨_, .item (.ljump r _ _), _, _, ifOps, isNot, _, _⟩ =>
+  | some ⟨_, .item (.ljump r _ _), _, _, ifOps, isNot, _, _, _, _, _, _, _, _, _⟩ =>
     ifOps.isEmpty && !isNot && !isJump r.name &&
     match g.outEs v with
     | [(_, a), (_, b)] =>
